@@ -42,7 +42,8 @@ AllOpsSeq == <<"Withdraw", "WithdrawNF", "TakeFromWorktop", "TakeNF", "TakeAll",
                "Mint", "MintNF", "MintNFWrongType", "MintRuid", "Burn", "BurnInAccount", "BurnNFInAccount", "Recall", "RecallNF",
                "ProofOfAmount", "ProofOfNF", "BucketProofOfAmount", "BucketProofOfNF", "BucketProofOfAll", "PopFromAuthZone",
                "PushToAuthZone", "CloneProof", "DropProof", "DropAllProofs", "DropNamedProofs", "DropAuthZoneProofs",
-               "DropAuthZoneRegularProofs", "AssertContains", "AssertAny", "AssertNF", "UpdateNFData">>
+               "DropAuthZoneRegularProofs", "DropAuthZoneSignatureProofs", "AzProofOfAmount", "AzProofOfNF", "AzProofOfAll",
+               "AssertContains", "AssertAny", "AssertNF", "UpdateNFData">>
 OpTable == SelectSeq(Weights \o AllOpsSeq, LAMBDA o : o \in Ops)
 SStep == \E j \in {RandomElement(1..Len(OpTable))}, f \in {RandomElement(1..FailOdds)} :
            LET op == OpTable[j]
